@@ -539,6 +539,13 @@ def apply_op(t, x, op):
             raise ValueError("unsupported")
     elif k == 'pop':
         x.pop()
+    elif k == 'setf':
+        i = int(op[1])
+        val = mk_val(op[2], op[3])
+        if tk == 'cont':
+            setattr(x, 'f%d' % i, val)
+        else:
+            x[i] = val
     elif k == 'cpy':
         # assign an existing (live, already hashed) sub-view of the same parent to another position
         i, j = int(op[1]), int(op[2])
@@ -854,12 +861,15 @@ def run_path(t, v, keys):
     T = mk_type(t)
     out = []
 
+    prefixes = []
+
     def build():
         p = None
         tt = t
         for k in keys:
             key = mk_key(tt, k)
             p = (T / key) if p is None else (p / key)
+            prefixes.append((p, tt, k))
             tt = nav_sexp_type(tt, k)
         return p
     try:
@@ -869,6 +879,22 @@ def run_path(t, v, keys):
     out.append('p.path=ok')
     g = E(lambda: str(int(p.gindex())))
     out.append('p.g=%s' % g)
+
+    # the prefix path objects are kept: each is extended a second time with the same key and with the
+    # first key of its target type, and must afterwards still address what it addressed
+    def reuse():
+        for i in range(len(prefixes) - 1):
+            pa, _, _ = prefixes[i]
+            _, tt, k = prefixes[i + 1]
+            again = pa / mk_key(tt, k)
+            if int(again.gindex()) != int(prefixes[i + 1][0].gindex()):
+                return 'again%d' % i
+            try:
+                pa / mk_key(tt, 0)
+            except Exception:
+                pass
+        return ','.join(str(int(q.gindex())) for q, _, _ in prefixes)
+    out.append('p.pre=%s' % E(reuse))
     # concatenation: split the path in two and divide
     def concat():
         res = []
